@@ -53,3 +53,33 @@ Proof.
   intros E. split; [exact (bundled_lookup_next E)|split; [exact (bundled_no_lookup_last E)|exact (bundled_n_periods E)]].
 Qed.
 Print Assumptions C02_code_lookup_array_is_the_next_periods.
+
+(* ---- about the regenerated index kernels of simulate (Gen/SimulateKernels.v) --------------------- *)
+From LCM Require Import Gen.ChoiceAxes Gen.SimulateKernels Proofs.C02_SimKernels.
+(* the choice of variable j reported for row i is the grid point whose index is the j-th component of  *)
+(* the row-major multi-index of row i's flat arg-max position; so if the arg-max position is that of     *)
+(* the multi-index idx, the reported choices are the grid points idx (dense and continuous choices)      *)
+Theorem C02_code_reported_choice_is_the_grid_point_of_the_argmax_position :
+  forall (indices : list nat) (grids : list (string * list Q)) (grid_shape idx : list nat) j i d,
+  (j < length grids)%nat -> (i < length indices)%nat -> in_bounds grid_shape idx ->
+  nth i indices 0%nat = ravel grid_shape idx ->
+  nth i (snd (nth j (retrieve_non_sparse_choices (Some indices) grids grid_shape) d)) 0%Q
+  = nth (nth j idx 0%nat) (snd (nth j grids d)) 0%Q.
+Proof. exact retrieved_choice_at_a_multi_index. Qed.
+Print Assumptions C02_code_reported_choice_is_the_grid_point_of_the_argmax_position.
+
+(* the continuous arg-max position of a row is read at the multi-index of that row's dense arg-max *)
+Theorem C02_code_continuous_argmax_is_that_of_the_chosen_discrete_combination :
+  forall (ccv_policy : arr nat) (dense_argmax : nat) (dense_shape r : list nat),
+  in_bounds (skipn (length (unravel dense_shape dense_argmax)) (shape ccv_policy)) r ->
+  get 0%nat (filter_ccv_policy_row ccv_policy (Some dense_argmax) dense_shape) r
+  = get 0%nat ccv_policy (unravel dense_shape dense_argmax ++ r)%list.
+Proof. exact filtered_policy_is_the_policy_of_the_chosen_dense_combination. Qed.
+Print Assumptions C02_code_continuous_argmax_is_that_of_the_chosen_discrete_combination.
+
+(* in the data state-choice space the unfiltered discrete choices are the axes 1..k *)
+Theorem C02_code_discrete_choice_axes_of_the_data_space : forall vi : list varinfo,
+  let k := length (filter (fun v => negb (is_continuous v) && is_dense v && is_choice v) vi) in
+  SimulateKernels.determine_discrete_dense_choice_axes vi = match k with O => None | _ => Some (seq 1 k) end.
+Proof. exact simulate_choice_axes. Qed.
+Print Assumptions C02_code_discrete_choice_axes_of_the_data_space.
